@@ -437,6 +437,13 @@ class CtxAwareTransformer(NodeTransformer):
         for ctx in reversed(self.contexts):
             if value in ctx:
                 ctx.remove(value)
+                if ctx is self.contexts[1] and len(self.contexts) == 2:
+                    # module level: the session's variable of that name is
+                    # the same variable (a builtin stays visible)
+                    import builtins as _builtins
+
+                    if not hasattr(_builtins, value):
+                        self.contexts[0].discard(value)
                 break
 
     def _column_window(self, node, line, nlogical):
